@@ -19,7 +19,10 @@ allp = {json.loads(l)['id'] for l in open(os.path.join(here, 'properties.jsonl')
 if claimed & na or (claimed | na) != allp:
     ok = False
     print('MANIFEST coverage mismatch: missing', sorted(allp - claimed - na), 'both', sorted(claimed & na))
+only = set(sys.argv[1:])
 for c in m['checks']:
+    if only and c['property_id'] not in only:
+        continue
     p = os.path.join(here, c['evidence_file']) if not c['evidence_file'].startswith('/') else c['evidence_file']
     if not os.path.exists(p):
         ok = False; print('MISSING evidence', p); continue
